@@ -92,3 +92,35 @@ func TestDebugCensor(t *testing.T) {
 		}
 	})
 }
+
+func TestDebugRepeat(t *testing.T) {
+	p := os.Getenv("VERIF_DEBUG_REPEAT")
+	if p == "" {
+		t.Skip()
+	}
+	rp, err := kernel.ReadReplay(p)
+	if err != nil {
+		t.Fatal(err)
+	}
+	prop := map[string]kernel.Property{"C04": C04{}, "C05": C05{}, "C09": C09{}, "C11": C11{}, "C19": C19{}}[rp.Plan.Prop]
+	kernel.Warmup(t)
+	x := uint64(0)
+	for i := 0; i < 2; i++ {
+		n := 0
+		DebugHook = func(pw *PgWorld, run *SessionRun, script []Stmt) {
+			n++
+			if n < 2 {
+				return
+			}
+			for i, r := range run.Results {
+				fmt.Printf("  session %d res %d %q: err=%q rows=%.50q\n", n, i, script[i].SQL, r.Err, r.Rows)
+			}
+		}
+		res := prop.Run(t, rp.Plan, false)
+		DebugHook = nil
+		fmt.Printf("run %d: hash=%d violations=%d\n", i, res.LogHash, len(res.Violations))
+		q := rp.Plan.Clone()
+		q.Seed += uint64(i) + 1
+		x ^= prop.Run(t, q, false).LogHash
+	}
+}
